@@ -75,6 +75,10 @@ CLAIMED = {
         text="Full for the combinatorial part: genCombinations enumerates exactly the non-empty order-preserving sub-lists (2^n-1), IsNonFatalConfig iff every member of every such sub-list gets >=1, PickUpMin/Max return the least/greatest q in [1,max] satisfying the predicate or 0, IsSuitableConfig => IsNonFatalConfig, monotone in the limit (given monotonicity of float64 '>' in its right argument, stated as a hypothesis), non-fatal => accepted by the v2 constructor for any dividend-conserving divider. Proved for all inputs. Model tied to both module versions by exact comparison of every helper, including composite scenarios that return the predicate for every q in [1,max]; clauses also monitored against an independent Python definition.",
         ref="5.C18, 6 (D2)", note=STD + FLOCQ,
         technique="Coq theorems over list model + extracted-model differential correspondence (v1 and v2)"),
+    "C16": dict(
+        text="Safety and stop-preferring liveness on the models, partial for the v1 priority scheduler until Prio1P lands: v1 join: once stopped the stop alternative is enabled at every blocking point and, taking it, the goroutine closes its output within six of its own steps from ANY state, emitting nothing (C16_join_stop_*); a slice left unreleased by a stop is never written again (C08_unreleased_forever). v1 Simple: process structure of main with its deferred calls and the handlers: when Stop()/GracefulStop() has returned every handler goroutine has exited (no Handle running, none will start), the repaired main is blocked under a stop only while it waits for the inner discipline or for handlers to leave, and the pinned main was deaf to Stop during a pending GracefulStop (kernel-checked witness) (C16_simple_*). v1 priority: model with a stop alternative at every blocking point (Prio1), compared exactly with the code for Stop/cancel injected at random settled points of add/remove/traffic scripts; monitors: Stop/cancel complete (a hang of the harness is the verdict), Stop returns at the instant it is called (join), output closed on return (join), nothing written after, delivered is an in-order duplicate-free subsequence, no Handle running after Stop (Simple, incl. overlapping Stop calls and Stop during GracefulStop). Two genuine defects found and repaired (D3, D5). Probability-1 termination under Go's random select is not expressed.",
+        ref="5.C16, 11.3", note=STD + "No axioms. Go's random choice among ready select cases is an oracle (all resolutions for join Stop; stop-preferring resolution for liveness).",
+        technique="Coq pc-machine proofs (stop alternatives, bounded stop run, process-structure invariant) + fake-time differential correspondence with trace inclusion + hang watchdog"),
     "C19": dict(
         text="Partial: proved on the models that the terminal program counter of every discipline enables no further step (C19_*_final) and that at termination of the v2 simplified discipline no handler holds an item and the output is empty, so every handler goroutine leaves its loop (C19_simple2_handlers_exit); the set of `go` statements of the seven discipline packages, regenerated from the source on every run, equals the models' goroutines (C19_goroutines, by computation in the kernel). That no goroutine is left over is observed, not proved: after every scenario -- normal, graceful, Stop, cancel, divider-fault termination, and after each of two overlapping Stop/GracefulStop calls of the v1 simplified discipline returned -- the harness waits for quiescence and counts goroutines created by library code; the synctest bubble refuses to end while one is blocked.",
         ref="5.C19", note=STD + "No axioms. Trusted: tools/racefacts (Go AST -> Facts.v), the runtime's goroutine dump.",
